@@ -604,6 +604,12 @@ func (e *Exec) evalClauseAt(fr *Frame, cl Clause, st *State, results []Val) *Ter
 				continue
 			}
 			v := e.load(st, av, deref(a.Type()))
+			if p.Snap {
+				if fr.oldOverride == nil {
+					e.fail("clause %s: before(%s) needs a 'since' anchor", cl.Label, strings.TrimPrefix(p.Name, "before_"))
+				}
+				v = e.load(fr.oldOverride, av, deref(a.Type()))
+			}
 			args = append(args, v)
 			ov := v
 			if fr.oldOverride != nil && (isStructT(deref(a.Type())) || isArrayT(deref(a.Type()))) {
